@@ -16,7 +16,7 @@ RULE = ("series of 2..5 points (all grids G(8,m) for small m, value vectors from
         "result over every original interval under the target rule equals the original average, and process.average "
         "returns the original abscissae bit for bit. Signature = (strategy, m, n, rule, append, rounded means); "
         "non-trivial = matching displaced at least one sample")
-ASSUMPTIONS = ["tolerance 1e-9 relative to max(1,|y|)", "default fixed points (closest sample to each reference abscissa)",
+ASSUMPTIONS = ["tolerance 1e-9 relative to max|y| (series also tried on a 2.5e6 baseline and at magnitude 1e-9, and with an abscissa equal to 0.0 inside the grid)", "default fixed points (closest sample to each reference abscissa)",
                "the last value of a series that was not extended by append_one_sample is an end point, not an interval average"]
 ANCHORS = {"rfa.py": [(70, 90)], "weaver.py": [(73, 76), (470, 514)], "match.py": [(105, 110)], "process.py": [(300, 321)]}
 EXPLANATION = "round-trip oracle evaluated on every element of a bounded input/configuration lattice"
@@ -43,6 +43,10 @@ def check_roundtrip(case):
         x, y = [float(v) for v in x], [float(v) for v in y]
     else:
         x, y = [float(v) for v in case["x"]], [float(v) for v in case["y"]]
+    x = [v + case.get("x_off", 0.0) for v in x]          # -2: an abscissa equal to 0.0 inside the grid
+    ysc = case.get("y_scale", 1.0)                       # same shape on a large baseline / at a tiny magnitude
+    if ysc != 1.0:
+        y = [v + ysc for v in y] if ysc > 1 else [v * ysc for v in y]
     key = {"strategy": st, "rule": rule, "append": app}
     ax, ay = np.array(x), np.array(y)
     kx, ky = ax.copy(), ay.copy()
@@ -68,7 +72,7 @@ def check_roundtrip(case):
     zs = np.asarray(zs, dtype=float)
     if len(xs) != m1 * n + 1 or len(zs) != len(xs):
         return [fail("length", {"len": [len(xs), len(zs)], "expected": m1 * n + 1}, key)], None
-    sc = max(1.0, max(abs(v) for v in y))
+    sc = max(max(abs(v) for v in y), 1e-300)     # "up to rounding": relative to the magnitude of the data
     means = []
     for k in range(m1):
         seg_x = [float(v) for v in xs[k * n:(k + 1) * n + 1]]
@@ -131,12 +135,15 @@ def harnesses(tier, seed):
         g, y = series[si]
         st = ctx.choose(RC.STRATS, "strategy")
         x = [float(v) for v in g]
+        k = si
         for n in ns:
             for p in psets(st, n):
                 for rule in ("trapezoid", "rectangle"):
                     for app in ("none", False, True):
+                        k += 1
                         judge(ctx, check_roundtrip, {"x": x, "y": list(y), "strategy": st, "n": n, "p": RC.pkey(p),
-                                                     "rule": rule, "append": app}, calls=3, bulk=True,
+                                                     "rule": rule, "append": app, "x_off": (0.0, -2.0)[k % 2],
+                                                     "y_scale": (1.0, 1.0, 2.5e6, 1.0, 1e-9)[k % 5]}, calls=3, bulk=True,
                               nontrivial=lambda s: s[-1])
         if len(g) == 4 and st == "expada" and si % 50 == 0:
             ctx.sample({"x": x, "y": list(y), "strategy": st, "n": ns})
